@@ -5,6 +5,7 @@ mod c04;
 mod c05;
 mod c06;
 mod c11;
+mod c13;
 mod c11_live;
 mod c15;
 
@@ -25,6 +26,9 @@ pub fn run(engine: &str, toks: Vec<Tok>) -> Vec<Tok> {
         "c11_skip_header" => c11::skip_header(toks),
         "c11_parse_message" => c11::parse_message(toks),
         "c11_echo_eq" => c11::echo_eq(toks),
+        "c13_creds" => c13::creds(toks),
+        "c13_validate" => c13::validate(toks),
+        "c13_wizard" => c13::wizard_roundtrip(toks),
         "c15_connect" => c15::connect(toks),
         "c15_make_auth" => c15::make_auth(toks),
         "c15_udp" => c15::udp(toks),
